@@ -1,20 +1,20 @@
 CONSTANTS
-  K = 1
-  MaxConns = 2
-  MaxNonReady = 0
+  K = 2
+  MaxConns = 1
+  MaxNonReady = 2
   MaxCreatePend = 0
-  MaxTicks = 4
-  MaxStops = 1
+  MaxTicks = 0
+  MaxStops = 0
   Timeout = 2
   ReadyCheckOnce = FALSE
   RestartAll = FALSE
-  DrainCalls = TRUE
+  DrainCalls = FALSE
   GracefulRepliesEarly = FALSE
   IgnoreTimeout = FALSE
   ForcedWaits = FALSE
   LifoQueue = FALSE
   DrainOnlyAtStop = FALSE
-  ErrKeepsPolling = FALSE
+  ErrKeepsPolling = TRUE
 SPECIFICATION Spec
 VIEW View
 INVARIANTS C07_Fifo C07_AllAccounted C01_DrainReleases
